@@ -20,7 +20,11 @@ RULE = (
     "rule-based state machine (Hypothesis stateful) over a sandbox $HOME holding private copies of small models "
     "(tx2, n1, zen1 and both ISA databases) in ~/.osaca/data. Operations: run the CLI on a shipped kernel; look a "
     "model up twice in one process; delete the companion / home cache; move the companion pickle to the home cache; "
-    "make the data directory read-only (chattr +i) so that the home cache is used; switch the model file between two "
+    "make the data directory read-only (chattr +i) so that the home cache is used; replace a model file's content while a cold-starting process is between parsing it and writing the "
+    "cache (the harness wraps the YAML library's load, later runs must report the new content); analyse through the "
+    "API with a "
+    "model file given by path (names with and without further dots, two files sharing a dotted prefix) and replace "
+    "such a file's content; switch the model file between two "
     "contents A/B (B differs in latencies), also while a process that already loaded it is alive (in-process lookup after "
     "the edit); cut a cache file at an offset class {0 bytes, header only (1-16), "
     "mid-stream, last byte missing} or overwrite it with garbage; N in {2,4,8} processes cold-starting at once. "
@@ -65,6 +69,14 @@ class Sandbox:
         for i in ("x86", "aarch64"):
             shutil.copy(os.path.join(env.REPO, "osaca", "data", "isa", i + ".yml"), os.path.join(self.data, "isa"))
         self.readonly = False
+        self.user = os.path.join(self.home, "models")
+        os.makedirs(self.user)
+        self.uservariant = {}
+
+    def set_user(self, name, arch, v):
+        with open(os.path.join(self.user, name), "w") as fh:
+            fh.write(variant_text(arch, v))
+        self.uservariant[name] = (arch, v)
 
     def set_variant(self, arch, v):
         with open(os.path.join(self.data, arch + ".yml"), "w") as fh:
@@ -119,6 +131,35 @@ def reference(arch, variant, kernel, fixed):
     return _REF[key]
 
 
+def api_run(home, model, kernel):
+    d = tempfile.mkdtemp(prefix="verif-c17a-")
+    try:
+        p = os.path.join(d, "k.s")
+        with open(p, "w") as fh:
+            fh.write(kernel_code(kernel))
+        e = env.child_env()
+        e["HOME"] = home
+        pr = subprocess.run([env.PY, "-c", APIRUN, model, p], env=e, capture_output=True, timeout=600)
+        return pr.returncode, pr.stdout.decode(errors="replace"), pr.stderr.decode(errors="replace")
+    finally:
+        shutil.rmtree(d, ignore_errors=True)
+
+
+def api_reference(arch, variant, kernel):
+    key = ("api", arch, variant, kernel)
+    if key not in _REF:
+        sb = Sandbox()
+        try:
+            sb.set_user("ref.yml", arch, variant)
+            rc, out, err = api_run(sb.home, os.path.join(sb.user, "ref.yml"), kernel)
+            if rc != 0:
+                raise core.HarnessError("cold API reference run failed: " + err[-500:])
+            _REF[key] = report.normalise(out)
+        finally:
+            sb.close()
+    return _REF[key]
+
+
 def argv_for(arch, fixed):
     return ["--arch", arch] + (["--fixed"] if fixed else [])
 
@@ -157,6 +198,54 @@ for i in range(2):
     sys.stdout.write(out.getvalue())
     if i == 0:
         shutil.copyfile(newmodel, target)   # the model file changes while the process lives
+"""
+
+
+APIRUN = r"""
+import sys
+from osaca.frontend import Frontend
+from osaca.parser import get_parser
+from osaca.semantics import ArchSemantics, KernelDG, MachineModel, reduce_to_section
+model, kpath = sys.argv[1], sys.argv[2]
+mm = MachineModel(path_to_yaml=model)
+isa = mm.get_ISA()
+parser = get_parser(isa)
+with open(kpath) as fh:
+    kernel = reduce_to_section(parser.parse_file(fh.read()), isa)
+sem = ArchSemantics(mm)
+sem.add_semantics(kernel)
+sem.assign_optimal_throughput(kernel)
+dg = KernelDG(kernel, parser, mm, sem, timeout=-1)
+fe = Frontend(filename="k.s", path_to_yaml=model)
+sys.stdout.write(fe.full_analysis(kernel, dg, ignore_unknown=True))
+"""
+
+# user model files addressed by path (API use: MachineModel(path_to_yaml=...)); the names share a dotted prefix
+USER_FILES = ["my.model.yml", "my.other.yml", "plain.yml"]
+
+
+# the harness owns the schedule: the model file is replaced right after OSACA has parsed it and before the
+# cache is written (ruamel's load is wrapped, no OSACA code is touched)
+EDITLOAD = r"""
+import sys, io, shutil
+import ruamel.yaml
+arch, path, newmodel, target = sys.argv[1], sys.argv[2], sys.argv[3], sys.argv[4]
+orig = ruamel.yaml.YAML.load
+state = {"done": False}
+def load(self, stream):
+    r = orig(self, stream)
+    if not state["done"] and hasattr(r, "get") and r.get("ports") is not None and r.get("instruction_forms"):
+        state["done"] = True
+        shutil.copyfile(newmodel, target)
+    return r
+ruamel.yaml.YAML.load = load
+import osaca.osaca as oo
+p = oo.create_parser()
+args = p.parse_args(["--arch", arch, path])
+oo.check_arguments(args, p)
+out = io.StringIO()
+oo.run(args, output_file=out)
+sys.stdout.write("EDITED" if state["done"] else "NOT-EDITED")
 """
 
 
@@ -273,6 +362,63 @@ class Interp:
             f["edit_after_cache"] = True
             f["written"].add((arch, sb.current_hash(arch)))
             f["checked"].append(len(self.history))
+        elif op == "edit_during_load":
+            # cold start; the file's content is replaced between parsing and cache writing; the run itself may
+            # report either content (not asserted) - every later run has to report the new content
+            arch = step["arch"]
+            if sb.readonly:
+                return
+            for x in sb.companion(arch) + sb.homefiles(arch):
+                os.remove(x)
+            before = sb.variant[arch]
+            after = "B" if before == "A" else "A"
+            d = tempfile.mkdtemp(prefix="verif-c17l-")
+            p = os.path.join(d, "k.s")
+            with open(p, "w") as fh:
+                fh.write(kernel_code(step["kernel"]))
+            newmodel = os.path.join(d, "new.yml")
+            with open(newmodel, "w") as fh:
+                fh.write(variant_text(arch, after))
+            e = env.child_env()
+            e["HOME"] = sb.home
+            pr = subprocess.run([env.PY, "-c", EDITLOAD, arch, p, newmodel, os.path.join(sb.data, arch + ".yml")],
+                                env=e, capture_output=True, timeout=600)
+            shutil.rmtree(d, ignore_errors=True)
+            out, err = pr.stdout.decode(errors="replace"), pr.stderr.decode(errors="replace")
+            if pr.returncode != 0:
+                self.check_run(step, pr.returncode, out, err or "run failed")
+            if out.endswith("NOT-EDITED"):
+                raise core.HarnessError("edit_during_load: the model was not parsed in a cold start")
+            sb.variant[arch] = after
+            f["edit_after_cache"] = True
+            f["edited_during_load"] = f.get("edited_during_load", 0) + 1
+        elif op == "api_set":
+            # a user model file (addressed by path) is created or its content replaced
+            had = step["name"] in sb.uservariant
+            sb.set_user(step["name"], step["arch"], step["variant"])
+            if had and f.get("api_runs", 0):
+                f["edit_after_cache"] = True
+        elif op == "api_run":
+            name = step["name"]
+            if name not in sb.uservariant:
+                return
+            arch, variant = sb.uservariant[name]
+            kernel = kernels_for(arch)[step["k"]]
+            rc, out, err = api_run(sb.home, os.path.join(sb.user, name), kernel)
+            tag = "api_run:" + ("dotted" if name.count(".") > 1 else "plain")
+            others = sorted(n for n in sb.uservariant if n != name)
+            if rc != 0 or err.strip():
+                raise Violation("run-fails:" + tag, "analysis with the model file %s given by path fails" % name,
+                                (err or out)[-600:], "exit 0, empty stderr")
+            ref = api_reference(arch, variant, kernel)
+            if report.normalise(out) != ref:
+                gl, rl = report.normalise(out).split("\n"), ref.split("\n")
+                raise Violation("report-differs:" + tag, "report for model file %s (content: %s variant %s; other "
+                                "model files in the directory: %s) differs from the cold-run report for the same "
+                                "content" % (name, arch, variant, others),
+                                [(a, b) for a, b in zip(gl, rl) if a != b][:3], None)
+            f["api_runs"] = f.get("api_runs", 0) + 1
+            f["checked"].append(len(self.history))
         elif op == "rm_companion":
             if not sb.readonly:
                 for x in sb.companion(step["arch"]):
@@ -379,6 +525,18 @@ def make_machine(stats, failures_out):
         def edit_inproc(self, arch, k):
             self.step({"op": "edit_inproc", "arch": arch, "kernel": kernels_for(arch)[k]})
 
+        @rule(name=st.sampled_from(USER_FILES), arch=st.sampled_from(ARCHS), variant=st.sampled_from(["A", "B"]))
+        def api_set(self, name, arch, variant):
+            self.step({"op": "api_set", "name": name, "arch": arch, "variant": variant})
+
+        @rule(name=st.sampled_from(USER_FILES), k=st.integers(0, 2))
+        def api_run(self, name, k):
+            self.step({"op": "api_run", "name": name, "k": k})
+
+        @rule(arch=st.sampled_from(ARCHS), k=st.integers(0, 2))
+        def edit_during_load(self, arch, k):
+            self.step({"op": "edit_during_load", "arch": arch, "kernel": kernels_for(arch)[k]})
+
         @rule(arch=st.sampled_from(ARCHS))
         def rm_companion(self, arch):
             self.step({"op": "rm_companion", "arch": arch})
@@ -450,6 +608,48 @@ def fault_enumeration(archs, stats, failures):
                 failures[v.bucket] = failure_record(ID, {"history": list(it.history)}, v)
         finally:
             it.close()
+    # the model file changes while a cold-starting process is between parsing it and writing the cache
+    for arch in archs:
+        it = Interp()
+        hist = [{"op": "edit_during_load", "arch": arch, "kernel": kernels_for(arch)[0]},
+                {"op": "run", "arch": arch, "kernel": kernels_for(arch)[0], "fixed": False},
+                {"op": "run", "arch": arch, "kernel": kernels_for(arch)[1], "fixed": True}]
+        try:
+            for s_ in hist:
+                it.do(s_)
+            for upto in it.facts["checked"]:
+                stats.evaluations += 1
+                stats.nontrivial.add(core.case_hash(it.history[:upto]))
+            stats.classes["fault:model-edited-between-parse-and-cache-write"] += 1
+        except Violation as v:
+            stats.evaluations += 1
+            if v.bucket not in failures:
+                failures[v.bucket] = failure_record(ID, {"history": list(it.history)}, v)
+        finally:
+            it.close()
+    # model files addressed by path: edit after caching, and two files whose names share a dotted prefix
+    for arch in archs:
+        for names in (("my.model.yml", "my.model.yml"), ("my.model.yml", "my.other.yml"), ("plain.yml", "plain.yml")):
+            it = Interp()
+            hist = [{"op": "api_set", "name": names[0], "arch": arch, "variant": "A"},
+                    {"op": "api_run", "name": names[0], "k": 0},
+                    {"op": "api_set", "name": names[1], "arch": arch, "variant": "B"},
+                    {"op": "api_run", "name": names[1], "k": 0},
+                    {"op": "api_run", "name": names[0], "k": 0}]
+            try:
+                for s_ in hist:
+                    it.do(s_)
+                for upto in it.facts["checked"]:
+                    stats.evaluations += 1
+                    stats.nontrivial.add(core.case_hash(it.history[:upto]))
+                stats.classes["fault:model-by-path:" + ("same-file-edited" if names[0] == names[1] else
+                                                        "two-files-shared-prefix")] += 1
+            except Violation as v:
+                stats.evaluations += 1
+                if v.bucket not in failures:
+                    failures[v.bucket] = failure_record(ID, {"history": list(it.history)}, v)
+            finally:
+                it.close()
     for arch in archs:
         for where in ("companion", "home"):
             for cls in ("zero", "header", "mid", "last", "garbage"):
